@@ -354,6 +354,16 @@ func genC03(tier, out string, sum *Summary) {
 			}
 		}
 	}
+	// a step of zero in every spelling the lexer accepts, with bounds that make the walk non-empty in either direction
+	for _, z := range []string{"0", "-0", "00", "000", "-00", "-000"} {
+		for _, b := range []string{"3:0", "2:0", "4:1", ":0", "3:", "0:3", ":", "-1:0", "0:-1", "1:1"} {
+			for _, tgt := range []string{"a", "s", "@", "a[*]", "[a, s][*]"} {
+				quiet(tgt+"["+b+":"+z+"]", map[string]any{"a": []any{json.Number("1"), json.Number("2"), json.Number("3"), json.Number("4"), json.Number("5")}, "s": "héllo"}, "zero-step-spellings")
+				quiet("["+b+":"+z+"]", []any{json.Number("1"), json.Number("2"), json.Number("3"), json.Number("4")}, "zero-step-spellings")
+				quiet("["+b+":"+z+"]", "abcdef", "zero-step-spellings")
+			}
+		}
+	}
 	// every start/stop (and a few steps) around the ends of short ASCII strings, mixed-width strings and arrays
 	for _, tgt := range []string{"'hello'", "'h'", "''", "'héllo€'", "`[1,2,3,4,5]`", "`[]`", "@"} {
 		for a := -7; a <= 7; a++ {
